@@ -4,6 +4,22 @@ from .prov import strip_casts
 MASK64 = (1 << 64) - 1
 
 
+def fold_ip(prog, e, env=None):
+    """fold(), but a call to a local parameterless const-like function (Flags::empty(), ...) is folded through its body."""
+    v = fold(e, env)
+    if v is not None:
+        return v
+    e2 = strip_casts(e)
+    if isinstance(e2, tuple) and e2[0] == "call" and not e2[2] and e2[1] in prog.fns:
+        c = prog.ctx(e2[1])
+        rets = list(c.ret_expr().values())
+        if len(rets) == 1:
+            return fold(rets[0])
+    if isinstance(e2, tuple) and e2[0] == "field":
+        return fold_ip(prog, e2[1], env)
+    return None
+
+
 def fold(e, env=None, depth=0):
     """Return an int when e folds to a constant (given env: {param_index_or_name: int}), else None."""
     env = env or {}
